@@ -150,7 +150,11 @@ class Result:
         if (
             isinstance(self.samples, np.ndarray)
             and self.samples.dtype not in (np.int32, np.int64)
-        ) or (self.samples and not isinstance(self.samples[0][0], (int, np.integer))):
+        ) or (
+            self.samples
+            and self.samples[0]
+            and not isinstance(self.samples[0][0], (int, np.integer))
+        ):
             raise NotImplementedError(
                 "The 'Result.get_counts' method only supports samples that contain "
                 "integers (e.g., samples from 'ParticleNumberMeasurement')."
